@@ -149,7 +149,9 @@ func sweep(all []dns.RR, w *hx.Writer, stride int, phase int) {
 			if k%stride != phase {
 				continue
 			}
-			for _, v := range []byte{0x00, 0xff, 0x40, 0xc0, 0x01} {
+			// boundary octets for lengths/pointers (00 ff 40 c0 01) and for text rendering of what was accepted
+			// (first/last printable, DEL, quote, backslash, dot, blank)
+			for _, v := range []byte{0x00, 0xff, 0x40, 0xc0, 0x01, 0x7e, 0x7f, 0x20, 0x22, 0x5c, 0x2e} {
 				o := append([]byte(nil), b...)
 				o[p] = v
 				sum.Evaluations++
@@ -232,6 +234,26 @@ func record(epath string, n int) {
 			})
 		}
 		guarded("IsMsg", in, func() { _ = dns.IsMsg(in) })
+		if i%25 == 0 { // inputs that end exactly at the header / at a section boundary while the counts claim more
+			for _, cnt := range []uint16{1, 2, 65535} {
+				h := append([]byte(nil), base[:12]...)
+				binary.BigEndian.PutUint16(h[4:], 0)
+				for k := 0; k < 3; k++ {
+					binary.BigEndian.PutUint16(h[6+2*k:], cnt)
+				}
+				sum.Evaluations++
+				tryMsg(h, w, 300) // header only
+				q := new(dns.Msg)
+				q.SetQuestion("boundary.example.", dns.TypeA)
+				if qb, err := q.Pack(); err == nil {
+					for k := 0; k < 3; k++ {
+						binary.BigEndian.PutUint16(qb[6+2*k:], cnt)
+					}
+					sum.Evaluations++
+					tryMsg(qb, w, 300) // ends right after the question
+				}
+			}
+		}
 		if i%50 == 0 && len(base) < 1500 { // every truncation point of this base message
 			for cut := 0; cut < len(base); cut++ {
 				sum.Evaluations++
